@@ -180,6 +180,12 @@ def databases():
         "G*68.002": {"mutations": [["GP", "e2-"], C52, S45]},
         "G*5": {"mutations": [["G", "deletion"]]},
     }))
+    dbs.append(("partial deletions are the only structural alleles", {
+        "G*1": {"mutations": []},
+        "G*2": {"mutations": [C20, S45]},
+        "G*7": {"mutations": [["G", "deletion:e1"], S45]},
+        "G*8": {"mutations": [["G", "deletion:e1,e2"]]},
+    }))
     # region names that contain each other: a custom partial deletion names one of them
     dbs.append(("NAMES: custom partial deletion among regions whose names contain each other", {
         "G*1": {"mutations": []},
@@ -404,6 +410,10 @@ def check_catalogue(res, f, label, yml, me, genome):
                 want_cov = conf.cn[0][r] > 0
                 if bool(got) != want_cov:
                     bad("C09.R5", f"{tag}: allele {mj} (configuration {al.cn_config}) at region {r}: has_coverage says {got}, the configuration keeps {conf.cn[0][r]} copies")
+    # (e4) copy-number calling is available exactly for genes whose database holds structural alleles of any kind
+    has_struct = any(a["struct"] for a in db.values())
+    if bool(getattr(me, "do_copy_number", None)) != has_struct:
+        bad("C09.R5", f"{tag}: the database {'holds' if has_struct else 'holds no'} structural alleles, copy-number calling is switched {'on' if getattr(me, 'do_copy_number', None) else 'off'}")
     # (f) fusion partials keep exactly the parent's variants in retained regions
     for mj, al in me.alleles.items():
         if "#" not in mj:
@@ -493,6 +503,8 @@ def run(repo, res):
 
 
 MUTANTS = [
+    dict(name="R5 partial deletions do not switch copy-number calling on (seeded X1_4 shape)", module="gene", expect="C09.R5",
+         old="deletion_allele or len(fusions_left) or len(fusions_right) or len(custom_cn)", new="deletion_allele or len(fusions_left) or len(fusions_right)"),
     dict(name="R6 retained regions judged by the main gene's vector only (seeded C09_b1 shape)", module="gene", expect="C09.R6",
          old="                if m:\n                    return self.cn_configs[f].cn[m[0]][m[1]] > 0\n                return False",
          new="                if m:\n                    return self.cn_configs[f].cn[0][m[1]] > 0\n                return False"),
